@@ -210,7 +210,7 @@ func SplitStatementToPieces(blob string) (pieces []string, err error) {
 			stmtBegin = pos.Offset + 1
 		case 0, eofChar:
 			blobTail := pos.Offset - 1
-			if stmtBegin < blobTail {
+			if stmtBegin <= blobTail {
 				stmt = blob[stmtBegin : blobTail+1]
 				if !emptyStatement {
 					pieces = append(pieces, stmt)
